@@ -295,6 +295,8 @@ type Gen struct {
 	B *Blanks
 	// graphs that received data so far (preferred as inputs, so that patterns have solutions)
 	Filled []string
+	// Wide: target lists of three graphs are frequent (sequences executed under GOMAXPROCS 1 or 2)
+	Wide bool
 }
 
 // inputs: mostly graphs known to hold data
@@ -314,6 +316,11 @@ var Graphs = []string{"?a", "?b", "?c"}
 func (g *Gen) pick(xs []string) string { return xs[g.R.Intn(len(xs))] }
 
 func (g *Gen) graphList(allowUnknown bool) []string {
+	if g.Wide && g.R.Intn(2) == 0 {
+		out := append([]string{}, Graphs...)
+		g.R.Shuffle(len(out), func(i, j int) { out[i], out[j] = out[j], out[i] })
+		return out
+	}
 	n := 1
 	if g.R.Intn(3) == 0 {
 		n = 2
